@@ -7,7 +7,7 @@ TRUSTED_BASE = [
     'Coq 8.16.1 kernel + vm_compute (no native_compute); std++ 1.8.0; coqchk in the thorough tier',
     'Print Assumptions of every property theorem: Closed under the global context (no axioms)',
     'hand-written Gallina model of the command layer (coq/theories); tied to /repo by the correspondence run of this check',
-    'translator tools/gen (go/parser + go/ast): the accepted Go fragment and its reading as the IRs of coq/bridge/{SkelLib,ReplayIR,ReadyIR,CompactIR,ReadIR,HeapIR,CycleIR,PruneIR,OutLib,CmdIR}.v; the IR interpreters; primitives pinned by source text or shape only: maxTime, parseTime/formatTime, sortedKeys/sortedMapKeys, sort.Slice, json.Unmarshal (struct shape), newEvent, applyLegacyTitleMigration (as a call); in the command IR (CmdIR.v) additionally: strings.TrimSpace/ContainsAny/HasPrefix/Contains, filepath.Clean/IsAbs (the model's Text/Path functions, tied by the function-level difftests), os.Stat verdict and captureResultEvidence (oracles), the clock / id / uuid streams (oracles consumed in call order), validateTransition/validateClaimInvariant/validStates (tied by B_C06), hasCycle (B_Cycle), readyTasks (B_Ready), loadGraph (B_Read+B_Replay), appendEvents/withLock (Skeleton obligations); maps have value semantics (the fragment never aliases one), error values are abstracted to nil / non-nil',
+    'translator tools/gen (go/parser + go/ast): the accepted Go fragment and its reading as the IRs of coq/bridge/{SkelLib,ReplayIR,ReadyIR,CompactIR,ReadIR,HeapIR,CycleIR,PruneIR,OutLib,CmdIR}.v; the IR interpreters; primitives pinned by source text or shape only: maxTime, parseTime/formatTime, sortedKeys/sortedMapKeys, sort.Slice, json.Unmarshal (struct shape), newEvent, applyLegacyTitleMigration (as a call); in the command IR (CmdIR.v) additionally: strings.TrimSpace/ContainsAny/HasPrefix/Contains, filepath.Clean/IsAbs (the Text/Path functions of the model, tied by the function-level difftests), os.Stat verdict and captureResultEvidence (oracles), the clock / id / uuid streams (oracles consumed in call order), validateTransition/validateClaimInvariant/validStates (tied by B_C06), hasCycle (B_Cycle), readyTasks (B_Ready), loadGraph (B_Read+B_Replay), appendEvents/withLock (Skeleton obligations); maps have value semantics (the fragment never aliases one), error values are abstracted to nil / non-nil',
     'correspondence harness (harness/*.py): generators, Go-side decoding of log bytes into typed events via the verif-rpc hook (encoding/json, time.Parse are Go stdlib), tag projection',
     'modelled not verified: kernel flock/O_APPEND/rename, Go stdlib, cobra flag parsing',
 ]
